@@ -16,6 +16,11 @@ Conventions:
     prost made of it (`none` = `DecodeError`), as an environment event;
   * the reflection service's own descriptor set is a parameter (`own`), appended as the last
     encoded registration when `include_reflection_service` is on.
+
+Not modelled (outside the property's quantifier): an error item on the *request* stream
+(`let Ok(req) = req else { return }`: the call then ends without a status of its own), and the
+`Status::internal("encoding error")` arm (prost's `encode` into a `Vec` cannot fail).  The bytes
+of a descriptor answer are modelled in `Model/ReflectionWire`.
 -/
 namespace Reflection
 open Refl
